@@ -604,11 +604,13 @@ class CustomSD(BaseCorrelations):
             def integrand(w):
                 # this is to stop overflow
                 if np.exp(-w / self.temperature) > np.finfo(float).eps:
+                    # written with expm1 such that nothing cancels for
+                    # w << temperature (and eta_function(0) is exactly 0)
                     inte = self._spectral_density(w) / w ** 2 \
-                        * (((np.exp(-1j*tau * w) \
-                             + np.exp(-(w / self.temperature - 1j*tau * w))) \
-                            - np.exp(- w / self.temperature) - 1) \
-                        / (1 - np.exp(-w / self.temperature)) + 1j*tau * w)
+                        * ((np.expm1(-1j*tau * w) \
+                            + np.exp(- w / self.temperature) \
+                              * np.expm1(1j*tau * w)) \
+                        / (-np.expm1(-w / self.temperature)) + 1j*tau * w)
                 else:
                     # exp(-w/T) is negligible here, but for an imaginary
                     # (Matsubara) time exp(-(w/T - 1j*tau*w)) is not
